@@ -1109,3 +1109,91 @@ def s_anyrank_size(ctx):
 
 SCENARIOS.append(Scenario("C09.folding.size[any rank]", s_anyrank_size, [(REL, "size")], trusted=_TRA,
                           assumptions=_ASA + ["the product of the extents is the recursively defined Prod; machine integers treated as mathematical"]))
+
+
+# ------------------------------------------------------------------ the evaluator registry: evaluators without a contract ---
+
+CONTRACTED_EVALUATORS = {"add", "abs", "gather", "reshape", "squeeze", "cast", "cast_like", "shape", "size", "if_op", "identity", "sequence_construct", "concat",
+                         "dropout", "expand", "concat_from_sequence", "split_to_sequence", "sequence_at"}
+
+
+def s_evaluator_registry(_ctx):
+    """Inv_sym ('every entry of a Shape sym value that is not a static int is a dimension, >= 0 for every binding') is a data-structure invariant:
+    every partial evaluator that records sym values must preserve it.  The evaluators under contract are proved to; an evaluator registered
+    WITHOUT a contract (added later) cannot be proved here, so it gets a bounded differential search on the real optimizer + onnxruntime over the
+    consumers that rely on the invariant: Abs(op(Shape(x)[0:1], c)) / Abs(op(c, Shape(x)[0:1])) / Abs(op(Shape(x)[0:1])) for c in {1, -1, 3} and
+    N in {0, 1, 2, 3}.  Refuted only with a concrete failing input (never on suspicion)."""
+    import numpy as np
+    from contracts.c17_opsets import Agg
+    cf = _cf()
+    agg = Agg()
+    unknown = []
+    for (domain, op_type), evs in cf.registry.op_evaluators.items():
+        for ev in evs:
+            fn = ev.function
+            if not (getattr(fn, "__module__", "") == cf.__name__ and fn.__name__ in CONTRACTED_EVALUATORS):
+                unknown.append((domain, op_type, fn.__name__))
+    agg.ob("C09.folding.registry.every_registered_evaluator_is_examined", True, f"{len(unknown)} evaluator(s) without a contract: {unknown}",
+           "C09: 'every simplification the optimizer derives from shape information'")
+    notes = [f"partial evaluator without a contract: {u} (bounded differential search only)" for u in unknown]
+    for domain, op_type, fname in unknown:
+        if domain not in ("", "ai.onnx"):
+            continue
+        try:
+            bad = _probe_unknown_evaluator(op_type)
+        except Exception as e:  # noqa: BLE001 - the probe is best effort: its own failure is not a verdict
+            notes.append(f"probe of {op_type} failed: {type(e).__name__}: {e}")
+            continue
+        agg.ob("C09.folding.registry.evaluator_without_contract_keeps_shape_arithmetic_correct", not bad,
+               f"{op_type} (evaluator {fname}): " + "; ".join(bad[:3]), CL09, case=op_type)
+    return {"obligations": agg.obs, "paths": 1 + len(unknown), "covered": [f"unknown_evaluators={len(unknown)}"], "notes": notes, "functions": []}
+
+
+def _probe_unknown_evaluator(op_type):
+    import itertools
+    import numpy as np
+    import onnx
+    import onnxruntime as ort
+    from onnx import TensorProto, helper, numpy_helper
+    import onnxscript.optimizer
+    ort.set_default_logger_severity(4)
+    bad = []
+
+    def vi(n, t, s):
+        return helper.make_tensor_value_info(n, t, s)
+    forms = [("S", "c"), ("c", "S"), ("S",)]
+    for form, c in itertools.product(forms, (1, -1, 3)):
+        nodes = [helper.make_node("Shape", ["x"], ["S"], start=0, end=1),
+                 helper.make_node("Constant", [], ["c"], value=numpy_helper.from_array(np.array([c], dtype=np.int64), "c")),
+                 helper.make_node(op_type, list(form), ["a"]), helper.make_node("Abs", ["a"], ["y"])]
+        g = helper.make_graph(nodes, "g", [vi("x", TensorProto.FLOAT, ["N", 2])], [vi("y", TensorProto.INT64, [1])])
+        m = helper.make_model(g, opset_imports=[helper.make_opsetid("", 18)], ir_version=9)
+        try:
+            onnx.checker.check_model(m, full_check=True)
+        except Exception:  # noqa: BLE001 - the operator does not take this form
+            continue
+        try:
+            o = onnxscript.optimizer.optimize(m)
+        except Exception as e:  # noqa: BLE001
+            bad.append(f"Abs({op_type}({', '.join(form)})) with c={c}: optimize() raises {type(e).__name__}")
+            continue
+        for n in (0, 1, 2, 3):
+            x = np.zeros((n, 2), np.float32)
+            try:
+                before = ort.InferenceSession(m.SerializeToString(), providers=["CPUExecutionProvider"]).run(None, {"x": x})[0]
+            except Exception:  # noqa: BLE001
+                continue
+            try:
+                after = ort.InferenceSession(o.SerializeToString(), providers=["CPUExecutionProvider"]).run(None, {"x": x})[0]
+            except Exception as e:  # noqa: BLE001
+                bad.append(f"Abs({op_type}({', '.join(form)})) c={c} N={n}: optimized model fails: {str(e).splitlines()[0][:80]}")
+                continue
+            if not np.array_equal(before, after):
+                bad.append(f"Abs({op_type}({', '.join(form)})) with c={c}, x of shape [{n},2]: original {before.tolist()}, after optimize() {after.tolist()}")
+    return bad
+
+
+SCENARIOS.append(Scenario("C09.folding.evaluator_registry", s_evaluator_registry, [("onnxscript/optimizer/_constant_folding.py", "PartialEvaluatorRegistry.register")],
+                          kind="evaluation",
+                          assumptions=["an evaluator registered without a contract is only probed (bounded differential search: Abs over op(Shape(x)[0:1], c) in three operand "
+                                       "forms, c in {1,-1,3}, N in {0,1,2,3}, on onnxruntime) — not proved; none exists on the unchanged tree"]))
